@@ -99,7 +99,7 @@ func init() {
 	})
 	register(&Prop{
 		ID:    "C17",
-		Rules: []func(*core.Ctx){RSlot, RCapsKey, RCapNode, RSkipTaken, ROptStack, RIgnParen},
+		Rules: []func(*core.Ctx){RSlot, RCapsKey, RCapNode, RSkipTaken, ROptStack, RIgnParen, RDigitAcc},
 		Explanation: "R-SLOT (group numbers reach slot indexes only through the number->slot maps, in the writer, the replacement data, GroupByNumber and initMatch; internal GroupByNumber callers pass numbers, not dense indexes), R-CAPNODE (every capture node created by the main parse accounts for its slot like the pre-scan does), R-SKIPTAKEN (a named group gets the next number that is not taken). " +
 			"That the pre-scan and the main parse assign the same numbers in every case, name ordering and duplicate-name rules are NOT decided.",
 	})
